@@ -364,3 +364,88 @@ Theorem C12_declaration_order_irrelevant : forall pr c b r,
   view_outcome_p pr (with_defaults_first c b) r = view_outcome_p pr c r.
 Proof. exact declaration_order_irrelevant. Qed.
 Print Assumptions C12_declaration_order_irrelevant.
+
+(* ================================================================== the regenerated program *)
+(* Gen/Facts_C12_prog.v is translated from the source on every run (harness/c12/translate.py); it equals the
+   reference model, and the property holds of it *)
+Require Import Verif.Gen.Facts_C12_prog Verif.Proofs.C12_gen.
+
+Theorem C12_gen_is_same_domain_is_model : forall h p, gen_is_same_domain h p = is_same_domain h p.
+Proof. exact gen_is_same_domain_is_model. Qed.
+Print Assumptions C12_gen_is_same_domain_is_model.
+
+Theorem C12_gen_policy_get_is_model : forall r,
+  gen_legacy_get r (r_stored r) = (expected_token Legacy r, store_after_get Legacy (r_stored r) (r_fresh r)) /\
+  gen_session_get r (r_stored r) = (expected_token Session r, store_after_get Session (r_stored r) (r_fresh r)) /\
+  gen_cookie_get r (r_stored r) = (expected_token Cookie r, store_after_get Cookie (r_stored r) (r_fresh r)).
+Proof. exact gen_policy_get_is_model. Qed.
+Print Assumptions C12_gen_policy_get_is_model.
+
+Theorem C12_gen_policy_check_is_model : forall s r sup,
+  gen_policy_check s r (r_stored r) sup = (policy_check true s r sup, store_after_get s (r_stored r) (r_fresh r)).
+Proof. exact gen_policy_check_is_model. Qed.
+Print Assumptions C12_gen_policy_check_is_model.
+
+Theorem C12_gen_check_csrf_token_is_model : forall pr s token header raises r,
+  p_utf8 pr = true -> gen_check_csrf_token s token header raises r = check_csrf_token_p pr s token header r.
+Proof. exact gen_check_csrf_token_is_model. Qed.
+Print Assumptions C12_gen_check_csrf_token_is_model.
+
+Theorem C12_gen_check_csrf_origin_is_model : forall pr settings caller allow raises r,
+  p_catch pr = true ->
+  gen_check_csrf_origin settings caller allow raises r = fst (check_csrf_origin_p pr settings caller allow r).
+Proof. exact gen_check_csrf_origin_is_model. Qed.
+Print Assumptions C12_gen_check_csrf_origin_is_model.
+
+Theorem C12_gen_view_outcome_is_model : forall pr c r,
+  p_utf8 pr = true -> p_catch pr = true -> gen_view_outcome c r = view_outcome_p pr c r.
+Proof. exact gen_view_outcome_is_model. Qed.
+Print Assumptions C12_gen_view_outcome_is_model.
+
+Theorem C12_gen_csrf_gate : forall c r,
+  wf_tokens c r = true -> (gen_view_outcome c r = Ran <-> spec_runs c r = true).
+Proof. exact gen_csrf_gate. Qed.
+Print Assumptions C12_gen_csrf_gate.
+
+Theorem C12_gen_body_never_runs_on_failure : forall c r, gen_view_outcome c r = Ran -> spec_runs c r = true.
+Proof. exact gen_body_never_runs_on_failure. Qed.
+Print Assumptions C12_gen_body_never_runs_on_failure.
+
+Theorem C12_gen_rejection_is_400 : forall c r,
+  wf_tokens c r = true -> parse_defined r = true ->
+  gen_view_outcome c r = Ran \/ gen_view_outcome c r = BadToken \/ exists w, gen_view_outcome c r = BadOrigin w.
+Proof. exact gen_rejection_is_400. Qed.
+Print Assumptions C12_gen_rejection_is_400.
+
+Theorem C12_gen_same_domain_spec : forall h p,
+  gen_is_same_domain h p = true <->
+  p <> [] /\ (h = lower p \/
+              exists rest, lower p = 46 :: rest /\ ((exists pre, h = pre ++ lower p) \/ h = rest)).
+Proof. exact gen_same_domain_spec. Qed.
+Print Assumptions C12_gen_same_domain_spec.
+
+Theorem C12_gen_origin_pass_iff : forall settings caller allow raises r,
+  gen_check_csrf_origin settings caller allow raises r = OPass <-> spec_origin_ok settings caller allow r = true.
+Proof. exact gen_origin_pass_iff. Qed.
+Print Assumptions C12_gen_origin_pass_iff.
+
+Theorem C12_gen_token_ok_iff_equal : forall s token header raises r,
+  forallb valid_scalar (expected_token s r) = true ->
+  forallb valid_scalar (supplied_token token header r) = true ->
+  (gen_check_csrf_token s token header raises r = TPass <-> supplied_token token header r = expected_token s r) /\
+  (gen_check_csrf_token s token header raises r = TFail <-> supplied_token token header r <> expected_token s r).
+Proof. exact gen_token_ok_iff_equal. Qed.
+Print Assumptions C12_gen_token_ok_iff_equal.
+
+Theorem C12_gen_no_stored_token_empty_supplied_rejected : forall s token header raises r,
+  token_absent s (r_stored r) = true -> r_fresh r <> [] -> forallb valid_scalar (r_fresh r) = true ->
+  supplied_token token header r = [] ->
+  gen_check_csrf_token s token header raises r = TFail.
+Proof. exact gen_no_stored_token_empty_supplied_rejected. Qed.
+Print Assumptions C12_gen_no_stored_token_empty_supplied_rejected.
+
+Theorem C12_gen_policy_lifecycle : forall s r sup,
+  snd (gen_policy_check s r (r_stored r) sup) = store_after_get s (r_stored r) (r_fresh r) /\
+  (fst (gen_policy_check s r (r_stored r) sup) = TPass -> sup = expected_token s r).
+Proof. exact gen_policy_lifecycle. Qed.
+Print Assumptions C12_gen_policy_lifecycle.
